@@ -147,7 +147,9 @@ EXTENDED = {"Any", "object", "list", "dict", "tuple", "set", "frozenset", "typin
 # classes without any annotation: the parameters of __init__ are their (unresolvable) members
 HINTLESS = {"NoHintsInit": ["a", "b"], "NoHintsChild": ["a", "b"], "NoHintsDefaults": ["name", "retries", "label", "ratio", "flags", "when"]}
 PASSTHROUGH = {"Any", "object", "T", "typing.Callable", "typing.Callable[..., int]", "typing.Callable[[int], str]",
-               "collections.abc.Callable[[int], str]"}
+               "collections.abc.Callable[[int], str]",
+               # class objects have no data to convert either
+               "type", "type[int]", "typing.Type[DC]"}
 UNARY = {
     "list": "list[{0}]", "tuple...": "tuple[{0}, ...]", "dictval": "dict[str, {0}]", "Optional": "typing.Optional[{0}]",
     "typing.List": "typing.List[{0}]", "Sequence": "typing.Sequence[{0}]", "Mapping": "typing.Mapping[str, {0}]",
